@@ -4151,6 +4151,7 @@ impl Interpreter {
         // Set up environment for execution
         let saved_env = self.env.cheap_clone();
         self.env = func_env;
+        let env_guards_before = self.env_guards.len();
         self.push_env_guard(func_guard);
 
         // Handle rest parameters: if the function has a rest parameter, we need to
@@ -4187,8 +4188,9 @@ impl Interpreter {
 
         let result = vm.run(self);
 
-        // Restore environment
-        self.pop_env_guard();
+        // Restore environment. A body that ended in an error can leave block scopes open:
+        // release their guards together with the function's own.
+        self.env_guards.truncate(env_guards_before);
         self.env = saved_env;
         self.call_stack.pop();
 
